@@ -151,7 +151,12 @@ class RawGenerator(Monitor):
                     COL.count('raw_generator_item_undecodable')
                     return
             judge_pairs(sh, pairs, cap, 'lindig', complete and exc is None)
-        return attach.Replace(common.recording(result, judge, 'Context._lattice'))
+        def limit():
+            try:
+                return sh.lattice(cap).n
+            except core.CaseTooLarge:
+                return None
+        return attach.Replace(common.recording(result, judge, 'Context._lattice', limit))
 
 
 def setup(concepts, spec):
